@@ -1,6 +1,7 @@
 import SignaloModel.Proofs.CascadeProofs
 import SignaloModel.Proofs.FirProofs
 import SignaloModel.Proofs.TableChecks
+import SignaloModel.Proofs.RegWavelet
 /-!
 # C07 — Daubechies analysis followed by synthesis reconstructs the signal
 
@@ -9,6 +10,9 @@ The property theorems for C07: `#check` prints each statement, `#print axioms` i
 -/
 open SignaloModel
 
+#check @Registry.synthesize_registry_correct
+#check @Registry.analyze_registry_correct
+#check @Registry.daubechies_registry_reconstructs
 #check @Fir.cascade_kernel
 #check @Fir.convL_residual_bound
 #check @Tables.db_reconstructs
@@ -21,6 +25,9 @@ open SignaloModel
 #check @Tables.db_low_gain
 #check @Tables.db_lengths
 
+#print axioms Registry.synthesize_registry_correct
+#print axioms Registry.analyze_registry_correct
+#print axioms Registry.daubechies_registry_reconstructs
 #print axioms Fir.cascade_kernel
 #print axioms Fir.convL_residual_bound
 #print axioms Tables.db_reconstructs
